@@ -42,22 +42,50 @@ def gen_layout_drift(rng):
     unification result, i.e. depends on array.unify-chunks-policy/-limit) directly under a consumer that
     plans on its input's block grid (native sliding-window reduction), with the unify configuration flipped
     between construction and computation.  (tools/f19_census.py runs the same family in bulk.)"""
-    nd = rng.choice([1, 2])
+    other_keys = rng.random() < 0.4  # flip keys that are NOT supposed to influence unification (chunk-size)
+    nd = 2 if other_keys else rng.choice([1, 2])
     shape = [rng.choice([6, 8]) for _ in range(nd)]
     srcs, steps = {}, []
     for i in range(2):
-        srcs[f"s{i}"] = {"shape": shape, "dtype": rng.choice(["f8", "f8", "i8", "f4"]), "offset": 3 + 11 * i, "kind": "ndarray"}
-        ch = [_chunking(rng, n, rng.choice(["fine", "coarse", "shift", "one", "rand"])) for n in shape]
+        srcs[f"s{i}"] = {"shape": shape, "dtype": "f8" if other_keys else rng.choice(["f8", "f8", "i8", "f4"]), "offset": 3 + 11 * i,
+                         "kind": "ndarray"}
+        styles = (["coarse", "one"] if i == 0 else ["fine", "shift"]) if other_keys else ["fine", "coarse", "shift", "one", "rand"]
+        ch = [_chunking(rng, n, rng.choice(styles)) for n in shape]
         steps.append({"op": "from_array", "in": [], "args": {"src": f"s{i}", "chunks": ch}, "out": f"v{i}"})
     steps.append({"op": "binary", "in": ["v0", "v1"], "args": {"f": rng.choice(["add", "mul", "maximum", "sub"])}, "out": "v2"})
     ax = rng.randrange(nd)
-    steps.append({"op": "window", "in": ["v2"], "args": {"axis": ax, "w": rng.randint(2, min(4, shape[ax])),
-                                                       "reduce": rng.choice(["mean", "sum", "max", "min", "std"])}, "out": "v3"})
+    if rng.random() < (0.3 if other_keys else 0.5):
+        steps.append({"op": "window", "in": ["v2"], "args": {"axis": ax, "w": rng.randint(2, min(4, shape[ax])),
+                                                           "reduce": rng.choice(["mean", "sum", "max", "min", "std"])}, "out": "v3"})
+    else:
+        # a tree reduction: its depth is planned on the block grid of its input
+        steps.append({"op": "reduction", "in": ["v2"], "args": {"f": rng.choice(["sum", "max", "mean", "min"]),
+                                                              "axis": rng.choice([None, ax])}, "out": "v3"})
     pol = H.CONFIG_DOMAIN["array.unify-chunks-policy"]
     lim = [None, "16B", "32B", "64B", "1KiB"]
+    if other_keys:
+        # the same drift scenario with keys that are NOT supposed to influence unification at all
+        cs = ["16B", "128MiB"] if rng.random() < 0.7 else ["16B", "64B", "256B", "128MiB"]
+        rng.shuffle(cs)
+        hist = [{"ev": "config", "key": "array.chunk-size", "value": cs[0]}]
+        if rng.random() < 0.85:
+            hist.append({"ev": "config", "key": "split_every", "value": 2})
+        hist.append({"ev": "build", "var": "v3"})
+        if rng.random() < 0.5:
+            hist.append({"ev": "inspect", "var": "v3", "acc": ["chunks", "shape"]})
+        if rng.random() < 0.5:
+            hist.append({"ev": "build", "var": "v2"})
+            hist.append(dict({"ev": "compute", "var": "v2"}, **H.rand_sched(rng)))
+        hist.append({"ev": "config", "key": "array.chunk-size", "value": cs[1]})
+        if rng.random() < 0.4:
+            hist.append({"ev": "build", "var": "v3", "force": rng.random() < 0.5})
+        hist.append(dict({"ev": "compute", "var": "v3"}, **H.rand_sched(rng)))
+        return {"scribble": False, "recipe": {"sources": srcs, "generators": {}, "steps": steps}, "targets": ["v3", "v2"], "history": hist}
     hist = [{"ev": "config", "key": "array.unify-chunks-policy", "value": rng.choice(pol)}]
     if rng.random() < 0.6:
         hist.append({"ev": "config", "key": "array.unify-chunks-limit", "value": rng.choice(lim)})
+    if rng.random() < 0.5:
+        hist.append({"ev": "config", "key": "split_every", "value": 2})
     hist.append({"ev": "build", "var": "v3"})
     if rng.random() < 0.5:
         hist.append({"ev": "inspect", "var": "v3", "acc": ["chunks", "shape"]})
@@ -107,9 +135,9 @@ def gen_tree_vs_grid(rng):
 
 def gen(rng, tier):
     r_ = rng.random()
-    if r_ < 0.08:
-        return gen_layout_drift(rng)
     if r_ < 0.12:
+        return gen_layout_drift(rng)
+    if r_ < 0.16:
         return gen_tree_vs_grid(rng)
     ctx = G.Ctx(rng)
     names = sorted(G.OPS)
